@@ -22,6 +22,8 @@ def catalogue(quick=True):
         for (L, H, W, J) in ((4, 9, 12, 2), (6, 16, 10, 1)) + (() if quick else ((2, 5, 5, 2),)):
             out.append(('dwt2d-fwd', dict(mode=mode, L=L, H=H, W=W, J=J)))
             out.append(('dwt2d-inv', dict(mode=mode, L=L, H=H, W=W, J=J)))
+        out.append(('dwt2d-fwd', dict(mode=mode, L=4, H=9, W=12, J=2, filters='tuple4')))
+        out.append(('dwt2d-inv', dict(mode=mode, L=4, H=9, W=12, J=2, filters='tuple4')))
         out.append(('dwt2d-inv-none', dict(mode=mode, L=4, H=9, W=12, J=2)))
         out.append(('dwt1d-inv-none', dict(mode=mode, L=4, N=11, J=2)))
         for fn in ('afb2d', 'sfb2d'):
@@ -85,14 +87,19 @@ def build(S, kind, p, nb=2, c=3, requires_grad=False, contig=True):
         hs.frozen = True
         hs.label = 'highpass list'
         return S.method(m, 'forward'), ((yl, hs),), ins, 'DWT1DInverse'
+    def wave2d(p):
+        if p.get('filters') == 'tuple4':
+            return tuple(user_filter(str(i), p['L'] + (2 if i >= 2 else 0)) for i in range(4)), p['L'], p['L'] + 2
+        return wname(p['L']), p['L'], p['L']
     if kind == 'dwt2d-fwd':
-        m = S.construct(T2, 'DWTForward', J=p['J'], wave=wname(p['L']), mode=p['mode'])
+        m = S.construct(T2, 'DWTForward', J=p['J'], wave=wave2d(p)[0], mode=p['mode'])
         b, x = mk('x', [p['H'], p['W']])
         return S.method(m, 'forward'), (x,), [(b, x)], 'DWTForward'
     if kind in ('dwt2d-inv', 'dwt2d-inv-none'):
-        m = S.construct(T2, 'DWTInverse', wave=wname(p['L']), mode=p['mode'])
-        lh = level_lengths(p['H'], p['L'], p['mode'], p['J'])
-        lw = level_lengths(p['W'], p['L'], p['mode'], p['J'])
+        wv, Lc, Lr = wave2d(p)
+        m = S.construct(T2, 'DWTInverse', wave=wv, mode=p['mode'])
+        lh = level_lengths(p['H'], Lc, p['mode'], p['J'])
+        lw = level_lengths(p['W'], Lr, p['mode'], p['J'])
         b, yl = mk('yl', [lh[-1], lw[-1]])
         ins = [(b, yl)]
         hs = ArgList()
